@@ -44,7 +44,7 @@ EXPLORATION_NOTE = ("Trusted base: the vrt runtime's model of std::mutex/timed_m
 PROPS = {
     "C01": {
         "level": "exploration",
-        "technique": "property-based testing over (wrapper config x client program x schedule) on a deterministic fiber runtime; oracle = happens-before monitor + last-write/lost-update model + deadlock and leaked-lock detection",
+        "technique": "property-based testing over (wrapper config x client program x schedule) on a deterministic fiber runtime; oracle = happens-before monitor + last-write/lost-update model + deadlock and leaked-lock detection; plus plain-old-data payloads judged by a dirty/clean value protocol",
         "design_ref": "DESIGN.md §5 C01",
         "text": "Generated clients mix lock/try_lock/try_lock_for/until/load/store/operator=/modify on guarded, guarded_opt, shared_guarded, shared_guarded_opt and ordered_guarded over all four "
                 "mutex types, under generated schedules with modelled mutexes. A vector-clock monitor flags any unordered pair of payload accesses, a last-write model flags lost updates and stale "
@@ -91,7 +91,7 @@ PROPS = {
     },
     "C09": {
         "level": "exploration",
-        "technique": "property-based testing over (participants x generations x drop plan x schedule x spurious wake-ups) on modelled mutex/condition_variable; oracle = per-generation arrival counters at every return, deadlock detection",
+        "technique": "property-based testing over (participants x generations x drop plan x schedule x spurious wake-ups) on modelled mutex/condition_variable; oracle = per-generation arrival counters at every return, deadlock detection; populations of up to 257 participants in the 272-fiber build",
         "design_ref": "DESIGN.md §5 C09",
         "text": "N in 2..5 participants run G in 1..4 generations with generated drop-outs, pauses and spurious wake-ups; each return from the g-th wait is checked against the number of participants "
                 "that belong to generation g, and a lost wake-up shows up as a scheduler-level deadlock. Exploration only.",
@@ -101,7 +101,7 @@ PROPS = {
     },
     "C10": {
         "level": "exploration",
-        "technique": "property-based testing over (arrive/wait/arrive_and_wait programs x schedule x spurious wake-ups); oracle = number of started arrivals at every wait return, deadlock detection (lost wake-up, arrive that waits)",
+        "technique": "property-based testing over (arrive/wait/arrive_and_wait programs x schedule x spurious wake-ups); oracle = number of started arrivals at every wait return, deadlock detection (lost wake-up, arrive that waits); populations of up to 257 blocked waiters in the 272-fiber build",
         "design_ref": "DESIGN.md §5 C10",
         "text": "Generated programs of arrivers, waiters and arrive_and_wait participants (count 1..4, total arrivals >= count) run under generated schedules with the waiter's unlocked fast path, the "
                 "arrival and spurious wake-ups interleaved at every visible step. Exploration only.",
@@ -111,7 +111,7 @@ PROPS = {
     },
     "C11": {
         "level": "exploration",
-        "technique": "property-based testing over (controller op sequence x waiters x schedule x time-outs x spurious wake-ups); oracle = two-bit sequential model for the controller, interval rules for waiter results, deadlock detection",
+        "technique": "property-based testing over (controller op sequence x waiters x schedule x time-outs x spurious wake-ups); oracle = two-bit sequential model for the controller, interval rules for waiter results, deadlock detection; populations of up to 257 blocked waiters in the 272-fiber build",
         "design_ref": "DESIGN.md §5 C11",
         "text": "One controller issues generated activate/trigger/reset sequences checked call by call against a two-bit model; waiters snapshot the model at call time and their results are judged with "
                 "interval reasoning (abstaining when a controller call was in flight); lost wake-ups appear as deadlock. Exploration only.",
@@ -183,7 +183,7 @@ PROPS = {
     },
     "C13": {
         "level": "exploration",
-        "technique": "property-based testing over (element type x handle/push/erase program x schedule) with an allocator ledger oracle: every allocate/construct matched by exactly one destroy/deallocate, no null or unknown pointer, nothing live after list destruction; instance counting on the payload",
+        "technique": "property-based testing over (element type x handle/push/erase program x schedule) with an allocator ledger oracle: every allocate/construct matched by exactly one destroy/deallocate, no null or unknown pointer, nothing live after list destruction; instance counting on the payload; bursts of up to 60 short write handles behind long-lived readers; re-entrant element constructors under a recursive mutex",
         "design_ref": "DESIGN.md §5 C13",
         "text": "Generated programs over T in {Tracked, std::string, int} run with a strict ledger allocator; any destroy/deallocate of null, of a dead or unknown block, any leak at list destruction and any "
                 "construction/destruction imbalance of the payload is a violation. Exploration only.",
@@ -216,7 +216,7 @@ PROPS = {
     },
     "C14": {
         "level": "exploration",
-        "technique": "generated freeze points: a writer fiber is suspended after k of its own visible steps (k over the whole operation) and readers must complete solo within a step bound with zero blocking operations; then writer completion after release (deadlock/livelock detector)",
+        "technique": "generated freeze points: a writer fiber is suspended after k of its own visible steps (k over the whole operation) and readers must complete solo within a step bound with zero blocking operations; then writer completion after release (deadlock/livelock detector); plus generated real-thread programs under ThreadSanitizer in which shared handles migrate between threads and the writer must still complete (watchdog)",
         "design_ref": "DESIGN.md §5 C14",
         "text": "For each writer operation (lr modify, cow commit, cow lock+cancel, rcu push_front/push_back/erase) and each generated freeze point inside it, 1-2 readers perform their read acquisition "
                 "(all try forms; full traversal for rcu) while the writer is frozen; any contended lock, condition wait or yield-spin inside the acquisition, or failure to finish, is a violation; the "
@@ -243,7 +243,7 @@ PROPS = {
     },
     "C03": {
         "level": "exploration",
-        "technique": "property-based testing over (client program x schedule) on a deterministic fiber runtime; oracle = happens-before monitor + mask-chain/currency/monotonicity invariants over the read history",
+        "technique": "property-based testing over (client program x schedule) on a deterministic fiber runtime; oracle = happens-before monitor + mask-chain/currency/monotonicity invariants over the read history; reader populations up to 65 537 handles",
         "design_ref": "DESIGN.md §5 C03",
         "text": "Generated lr_guarded clients (modify/lock_shared/try forms, handles held across steps) run under generated schedules on the vrt fiber "
                 "runtime with the real lr_guarded header compiled against modelled atomics/mutexes. Every payload access is race-checked by a vector-clock "
